@@ -138,7 +138,13 @@ impl<'tcx> Dumper<'tcx> {
                         }
                         _ => String::new(),
                     };
-                    let _ = write!(s, "{{\"f\":{},\"name\":{}}}", f.as_usize(), esc(&name));
+                    let _ = write!(
+                        s,
+                        "{{\"f\":{},\"name\":{},\"bty\":{}}}",
+                        f.as_usize(),
+                        esc(&name),
+                        esc(&ty_str(cur.ty))
+                    );
                 }
                 ProjectionElem::Index(l) => {
                     let _ = write!(s, "{{\"idx\":{}}}", l.as_usize());
